@@ -18,6 +18,9 @@ def body(shape, name, k, edit=None):
     op = "-" if edit == "op" else "+"
     k2 = k + (7 if edit == "const" else 0)
     extra = "\tprintln(a)\n" if edit == "call" else ""
+    if shape == "closurerec":   # a function literal that calls the function enclosing it
+        return ("func %s(a, n int) int {\n%s\tif n <= 0 {\n\t\treturn a %s %d\n\t}\n\tf := func() int {\n\t\treturn %s(a+1, n-1)\n\t}\n\treturn f()\n}\n"
+                % (name, extra, op, k2 + 1, name))
     if shape == "entlit":       # same topology for every k, but string literals of very different entropy
         lit = ["aaaaaaaaaaaaaaaaaaaaaaaaaaaaaaaa", "Zq8#xL1@pV0$kW9!mR7^tY2&uE5*iO3(", "abababababababababababababababab",
                "7fK2@9xQ!vB4#mZ8$wN1%cH6^jT3&rD5"][k % 4]
